@@ -334,7 +334,8 @@ def w_ops(keys, d, vf="ints"):
     absent = next(k for k in U if k not in keys and k >= 0 and k < 100)
     ops = []
     if vf in ("floats", "scalar_half"):
-        ops.append(["set1", keys[-1], 2.5])        # a float-valued table keeps fractions, also after fill / zeros_like / ones_like / +
+        ops.append(["set1", keys[-1], 2.5])
+        ops.append(["addset", keys[-1], 2.5])      # a sum with an integer table is still a float table
     for i, k in enumerate(keys):
         ops.append(["set1", k, 50 + i])
     ops.append(["set1", absent, 99])
@@ -372,8 +373,10 @@ def model_apply(d, op, keys):
         d = {x: 0 for x in d}
     elif k == "ones_like":
         d = {x: 1 for x in d}
-    elif k == "add":
+    elif k in ("add", "addset"):
         d = {x: v + 100 * (i + 1) for i, (x, v) in enumerate(d.items())}
+        if k == "addset":
+            d[op[1]] = op[2]
     return d
 
 
@@ -395,11 +398,14 @@ def impl_apply(t, op, cfg):
         return np.zeros_like(t)
     elif k == "ones_like":
         return np.ones_like(t)
-    elif k == "add":
+    elif k in ("add", "addset"):
         from npstructures import HashTable
         karr = np.array(keys, dtype=kdt) if kdt else list(keys)
         other = HashTable(karr, np.array([100 * (i + 1) for i in range(len(keys))]), mod=mod)
-        return t + other
+        s = t + other
+        if k == "addset":
+            s[op[1]] = op[2]
+        return s
     return t
 
 
@@ -484,7 +490,7 @@ def _step(acc, cfg, hist, op, seen):
             return "bad"
         t2 = r
     if cfg[3].startswith("scalar") and op[0] in ("set1", "setv", "setvv", "setv_arr") and \
-            not any(h[0] in ("set1", "setv", "setvv", "setv_arr", "add") for h in hist):
+            not any(h[0] in ("set1", "setv", "setvv", "setv_arr", "add", "addset") for h in hist):
         acc.feature("lazy_form_materialised")      # first assignment into a table built in its scalar-valued form
     k = hash((canon_table(t2), repr(sorted(d2.items()))))
     if k in seen:
@@ -506,7 +512,7 @@ def _observe_state(acc, cfg, hist):
     if kdt in ("int8", "uint8"):
         probe = probe + [k + 256 for k in keys[:1]]       # aliases a stored key after a cast to the key dtype
     pairs = list(itertools.product(probe, repeat=2))
-    scalar_form = (vf.startswith("scalar") and not any(h[0] in ("set1", "setv", "setvv", "setv_arr", "add") for h in hist)) or \
+    scalar_form = (vf.startswith("scalar") and not any(h[0] in ("set1", "setv", "setvv", "setv_arr", "add", "addset") for h in hist)) or \
         any(h[0] in ("zeros_like", "ones_like") for h in hist)
     observe_table(acc, lambda: replay(cfg, hist)[0], d, keys, mod, kdt, probe, pairs,
                   classify=_classify_factory(keys, mod, kdt, scalar_form))
